@@ -301,21 +301,39 @@ impl Shim {
 fn on_event(e: Event) {
     match e {
         Event::Pre(site, addr) => crate::gate::turn_at(site, addr),
-        Event::Read { ptr, len } => with(|s| s.access("read", ptr, len)),
-        Event::Write { ptr, len } => with(|s| s.access("write", ptr, len)),
-        Event::FetchAdd { addr, order, prev, .. } => with(|s| {
-            let (id, bu, dead) = s.find(addr).map(|b| (b.id, b.user, !b.live)).unwrap_or((0, 0, false));
-            s.ev_d("rmw+", ord(order), prev, id, bu, dead)
-        }),
-        Event::FetchSub { addr, order, prev, .. } => with(|s| {
-            let (id, bu, dead) = s.find(addr).map(|b| (b.id, b.user, !b.live)).unwrap_or((0, 0, false));
-            s.ev_d("rmw-", ord(order), prev, id, bu, dead)
-        }),
-        Event::Load { addr, order, val } => with(|s| {
-            let (id, bu, dead) = s.find(addr).map(|b| (b.id, b.user, !b.live)).unwrap_or((0, 0, false));
-            s.ev_d("load", ord(order), val, id, bu, dead)
-        }),
-        Event::Fence { order } => with(|s| s.ev("fence", ord(order), 0, 0, 0)),
+        Event::Read { ptr, len } => {
+            with(|s| s.access("read", ptr, len));
+            crate::gate::after_at(lean_string::verif_hooks::Site::Access, ptr)
+        }
+        Event::Write { ptr, len } => {
+            with(|s| s.access("write", ptr, len));
+            crate::gate::after_at(lean_string::verif_hooks::Site::Access, ptr)
+        }
+        Event::FetchAdd { addr, order, prev, .. } => {
+            with(|s| {
+                let (id, bu, dead) = s.find(addr).map(|b| (b.id, b.user, !b.live)).unwrap_or((0, 0, false));
+                s.ev_d("rmw+", ord(order), prev, id, bu, dead)
+            });
+            crate::gate::after_at(lean_string::verif_hooks::Site::Atomic, addr)
+        }
+        Event::FetchSub { addr, order, prev, .. } => {
+            with(|s| {
+                let (id, bu, dead) = s.find(addr).map(|b| (b.id, b.user, !b.live)).unwrap_or((0, 0, false));
+                s.ev_d("rmw-", ord(order), prev, id, bu, dead)
+            });
+            crate::gate::after_at(lean_string::verif_hooks::Site::Atomic, addr)
+        }
+        Event::Load { addr, order, val } => {
+            with(|s| {
+                let (id, bu, dead) = s.find(addr).map(|b| (b.id, b.user, !b.live)).unwrap_or((0, 0, false));
+                s.ev_d("load", ord(order), val, id, bu, dead)
+            });
+            crate::gate::after_at(lean_string::verif_hooks::Site::Atomic, addr)
+        }
+        Event::Fence { order } => {
+            with(|s| s.ev("fence", ord(order), 0, 0, 0));
+            crate::gate::after_at(lean_string::verif_hooks::Site::Fence, 0)
+        }
     }
 }
 
